@@ -96,7 +96,8 @@ CLAIMS = {
     "C12": ("Theorems C12_line_col / C12_line_of / C12_boundaries for all valid UTF-8 strings and boundary offsets (CR/LF state machine "
             "collapses to the declarative spec; unreachable branches proved unreachable); tie: exhaustive small strings + random texts "
             "against pest::Position (oracle) and the model.", "DESIGN.md §4 C12"),
-    "C13": ("Theorems C13_new / C13_get / C13_split / C13_lines_span / C13_lines / C13_merge / C13_eq for all strings and spans; tie: "
+    "C13": ("Theorems C13_new / C13_get / C13_split / C13_lines_span / C13_lines / C13_merge / C13_eq for all strings and spans, plus the algebra "
+            "C13_get_sub_text / C13_get_compose / C13_merge_adjacent_text / C13_merge_idem / C13_merge_is_hull; tie: "
             "exhaustive small strings x all (start,end) pairs x all sub-ranges / span pairs against pest::Span and the model.",
             "DESIGN.md §4 C13"),
     "C14": ("(the display width of a STRING is an arbitrary function in every theorem: nothing is assumed about emoji / ZWJ / VS16 sequences) "
